@@ -79,11 +79,15 @@ def md_ok_cell(s: str) -> bool:
     return True
 
 
-def to_md(sheets) -> str:
+def to_md(sheets, separator=None) -> str:
+    """separator: None, or the cell text of a markdown delimiter row written under every header row ('---', ':---:', '-' ...), with or without blanks."""
     lines = []
     for name, (hdrs, rows) in sheets.items():
         lines.append(f"| {name} |")
         lines.append("| | " + " | ".join(_md_cell(h) for h in hdrs) + " |")
+        if separator:
+            cell, spaced = separator
+            lines.append(("| | " + " | ".join(cell for _ in hdrs) + " |") if spaced else ("|" + "|".join(cell for _ in ["x"] + list(hdrs)) + "|"))
         for r in rows:
             cells = [_md_cell(canon_text(c)) for c in r]
             if not any(c.strip() for c in cells):
@@ -217,7 +221,7 @@ def to_xls(sheets, typed=True) -> bytes:
 
 def render(sheets, fmt, **kw):
     if fmt == "md":
-        return to_md(sheets)
+        return to_md(sheets, **kw)
     if fmt == "csv":
         return to_csv(sheets, **kw)
     if fmt in ("xlsx", "xlsm"):
